@@ -1,5 +1,6 @@
 """Shared machinery of the checks: translate, build, axiom audit, driver, evidence, ledger."""
 import hashlib
+import glob
 import json
 import os
 import random
@@ -34,6 +35,52 @@ def repo_src():
     src = os.path.join(REPO, 'src')
     if src not in sys.path:
         sys.path.insert(0, src)
+
+
+# ---------------------------------------------------------------- change-aware budgets
+
+BASELINE_SRC = os.path.join(HERE, 'baseline_src.json')
+_src_state = {}
+
+
+def source_fingerprint(repo=None):
+    """{file: sha256 of the comment- and layout-free AST} of /repo/src/ssh_audit/*.py (and the wrapper script)"""
+    import ast
+    import hashlib
+    repo = repo or REPO
+    out = {}
+    files = sorted(glob.glob(os.path.join(repo, 'src', 'ssh_audit', '*.py'))) + [os.path.join(repo, 'ssh-audit.py')]
+    for f in files:
+        try:
+            tree = ast.parse(open(f, encoding='utf-8').read())
+            out[os.path.relpath(f, repo)] = hashlib.sha256(ast.dump(tree, annotate_fields=False, include_attributes=False).encode()).hexdigest()
+        except Exception as e:     # a file that does not parse is certainly a change
+            out[os.path.relpath(f, repo)] = 'unparsable: %s' % type(e).__name__
+    return out
+
+
+def source_changed():
+    """files of the code under test whose AST differs from the baseline this framework was last validated against (harness/baseline_src.json).
+    A change is not a violation; it only makes every check spend a larger budget (see Ctx.scale), because a tree that differs from the validated
+    one is exactly where a deeper search pays."""
+    if os.environ.get('VERIF_FORCE_ESCALATE') == '1':
+        return ['<forced by VERIF_FORCE_ESCALATE>']
+    if 'changed' not in _src_state:
+        try:
+            base = json.load(open(BASELINE_SRC))
+        except Exception:
+            base = None
+        cur = source_fingerprint()
+        _src_state['changed'] = sorted(k for k in set(cur) | set(base or {}) if base is None or cur.get(k) != base.get(k)) if base is not None else []
+    return _src_state['changed']
+
+
+def scaled(tier, quick, thorough):
+    if tier == 'thorough':
+        return thorough
+    if os.environ.get('VERIF_NO_ESCALATE') != '1' and source_changed() and isinstance(quick, int) and isinstance(thorough, int) and thorough > quick:
+        return min(thorough, quick * 4)
+    return quick
 
 
 def translate():
@@ -265,7 +312,7 @@ class ReplayCtx:
         self.deadline = None
 
     def scale(self, quick, thorough):
-        return thorough if self.tier == 'thorough' else quick
+        return scaled(self.tier, quick, thorough)
 
     def driver(self, lines):
         return []
